@@ -62,8 +62,27 @@ func runC08(c *rules.Ctx) {
 	c.OnlyWhen(EM, "sdkmath.LegacyDec.Sub[1=cl.computeTotalIncentivesToEmit(...)#0]", "le(cl.computeTotalIncentivesToEmit(...)#0, _.IncentiveRecordBody.RemainingCoin.Amount)", "remaining is reduced only when it covers the emission")
 	c.CallArg(EM, "sdkmath.LegacyDec.Sub[1=cl.computeTotalIncentivesToEmit(...)#0]", 0, "_.IncentiveRecordBody.RemainingCoin.Amount", "remaining − emitted: exactly the emitted amount is deducted from the record's remaining coin")
 	c.BranchOn(EM, "ne(elem(_).MinUptime, accumUptime)", nil, "a record only feeds the accumulator of its own uptime")
+	// ---- one scaling factor per accumulator family, the same when growing and when claiming
+	c.WhoMayCall(K+"getSpreadFactorScalingFactorForPool", []string{"cl.Keeper.computeOutAmtGivenIn", "cl.Keeper.computeInAmtGivenOut", "cl.Keeper.prepareClaimableSpreadRewards"}, "the spread-reward scaling factor is used by the two swap kinds (growth) and the spread-reward claim, and by nothing else")
+	c.WhoMayCall(K+"getIncentiveScalingFactorForPool", []string{"cl.Keeper.updateGivenPoolUptimeAccumulatorsToNow", "cl.Keeper.prepareClaimAllIncentivesForPosition"}, "the incentive scaling factor is used by emission and by the incentive claim, and by nothing else")
+	for _, fn := range []string{"computeOutAmtGivenIn", "computeInAmtGivenOut"} {
+		c.HasCall(K+fn, "cl.Keeper.getSpreadFactorScalingFactorForPool", []string{"k", "ctx", "poolId"}, false, "spread-reward growth of a swap is scaled with the spread-reward factor of the swapped pool", "")
+		c.CallArg(K+fn, "cl.SwapState.updateSpreadRewardGrowthGlobal", 2, "has(cl.Keeper.getSpreadFactorScalingFactorForPool(k,ctx,poolId)#0)", "…and that factor is the one applied to the growth")
+	}
+	c.HasCall(K+"prepareClaimableSpreadRewards", "cl.Keeper.getSpreadFactorScalingFactorForPool", []string{"k", "ctx", "cl.Keeper.GetPosition(k,ctx,positionId)#0.PoolId"}, true, "spread-reward claims are scaled down with the factor of the position's pool", "")
+	c.HasCall(K+"prepareClaimAllIncentivesForPosition", "cl.Keeper.getIncentiveScalingFactorForPool", []string{"k", "ctx", "cl.Keeper.GetPosition(k,ctx,positionId)#0.PoolId"}, true, "incentive claims are scaled down with the incentive factor of the position's pool", "")
+	c.HasCall(K+"updateGivenPoolUptimeAccumulatorsToNow", "cl.Keeper.getIncentiveScalingFactorForPool", []string{"k", "ctx", "_"}, false, "emission is scaled with the incentive factor", "")
 	// ---- forfeits
 	const PC = K + "prepareClaimAllIncentivesForPosition"
 	c.BranchOn(PC, "lt(time.Time.Sub(sdk.Context.BlockTime(ctx), cl.Keeper.GetPosition(k,ctx,positionId)#0.JoinTime), elem(@cltypes.SupportedUptimes))", nil, "the position's age (block time − join time) is compared with each uptime")
 	c.FailsWhen(PC, "lt(time.Time.Sub(sdk.Context.BlockTime(ctx), cl.Keeper.GetPosition(k,ctx,positionId)#0.JoinTime), 0)", "a negative position age is an error", rules.GuardOpt{})
+	// ---- redeposit of forfeited incentives: each uptime accumulator receives only what was forfeited for that uptime
+	const RD = K + "redepositForfeitedIncentives"
+	c.Let("FORF", "elem(elem(scaledForfeitedIncentivesByUptime))")
+	c.Let("LIQ", "cltypes.ConcentratedPoolExtension.GetLiquidity(cl.Keeper.getPoolById(k,ctx,poolId)#0)")
+	c.CallArg(RD, "accum.AccumulatorObject.AddToAccumulator", 0, "elem(cl.Keeper.GetUptimeAccumulators(k,ctx,poolId)#0)", "forfeits are re-added to the pool's uptime accumulators")
+	c.CallArg(RD, "accum.AccumulatorObject.AddToAccumulator", 1, "phi(sdk.NewDecCoins(), sdk.DecCoins.Add(#self, sdk.NewDecCoinFromDec({FORF}.Denom, sdkmath.LegacyDec.QuoTruncate(sdkmath.Int.ToLegacyDec({FORF}.Amount), {LIQ}))))", "the amount re-added to one uptime accumulator is the sum, started from zero for that uptime, of forfeited amount / active liquidity over that uptime's forfeited coins")
+	c.FreshPerIteration(RD, "accum.AccumulatorObject.AddToAccumulator", 1, "the amount re-added starts from zero for every uptime (forfeits of one uptime never leak into another accumulator)")
+	c.OnlyWhen(RD, "cltypes.BankKeeper.SendCoins", "sdkmath.LegacyDec.LT({LIQ}, sdkmath.LegacyOneDec())", "forfeits are paid out instead of re-deposited only when there is no active liquidity to share them")
+	c.CallArg(RD, "cltypes.BankKeeper.SendCoins", 4, "totalForefeitedIncentives", "…and then exactly the forfeited total is paid")
 }
